@@ -290,7 +290,8 @@ def step (w : World) (e : Ev) : Option World :=
       match getObj w k with
       | none => none
       | some o =>
-        if (getOp w op).isSome || o.kind == .timer then none else
+        -- (operation ids are fresh; timers have their own calls; `kind` is one of the I/O kinds)
+        if (getOp w op).isSome || o.kind == .timer || !kind.isIO then none else
         some { w with ops := { id := op, obj := k, kind := kind } :: w.ops, stack := .startCall op k kind false :: st }
     | .callCancel k => some (push w (.cancelCall k .reads))
     | .callClose k => some (push w (.closeCall k))
